@@ -45,9 +45,9 @@ func genRegex(t *rapid.T, depth int, label string) *reNode {
 	}
 	switch rapid.IntRange(0, max).Draw(t, label+"K") {
 	case 0:
-		return &reNode{kind: "lit", s: rapid.SampledFrom([]string{"a", "b", "ab", "x", "0", "-", "_", "\\.", "\\+", "/", " ", "a "}).Draw(t, label+"L")}
+		return &reNode{kind: "lit", s: rapid.SampledFrom([]string{"a", "b", "ab", "x", "0", "-", "_", "\\.", "\\+", "/", " ", "a ", "é", "€", "ж"}).Draw(t, label+"L")}
 	case 1:
-		return &reNode{kind: "class", s: rapid.SampledFrom([]string{"[a-c]", "[0-9]", "\\d", "[a-z0-9]", "[^x]", "\\w", ".", "\\s", "[ ]"}).Draw(t, label+"C")}
+		return &reNode{kind: "class", s: rapid.SampledFrom([]string{"[a-c]", "[0-9]", "\\d", "[a-z0-9]", "[^x]", "\\w", ".", "\\s", "[ ]", "[a-cé]", "[а-я]"}).Draw(t, label+"C")}
 	case 2:
 		return &reNode{kind: "opt", kids: []*reNode{genRegex(t, depth-1, label+"o")}}
 	case 3:
@@ -121,6 +121,10 @@ func (r *reNode) sample(t *rapid.T, label string) string {
 			return rapid.SampledFrom([]string{" ", "\t", "\n"}).Draw(t, label)
 		case "[ ]":
 			return " "
+		case "[a-cé]":
+			return rapid.SampledFrom([]string{"a", "c", "é"}).Draw(t, label)
+		case "[а-я]":
+			return rapid.SampledFrom([]string{"а", "ж", "я"}).Draw(t, label)
 		default:
 			return rapid.SampledFrom([]string{"a", "x", " ", "é", "\""}).Draw(t, label)
 		}
@@ -197,6 +201,8 @@ func dateSamples(t *rapid.T, label string) []fmtSample {
 		{fmt.Sprintf("%04d-%02d-%02d", y, m, dmax+1+rapid.IntRange(0, 1).Draw(t, label+"Over")), m == 2 && false},
 		{fmt.Sprintf("%d-%d-%d", y, m, d), len(fmt.Sprintf("%d-%d-%d", y, m, d)) == 10},
 		{ok + "T00:00:00Z", false},
+		// a sign where a digit belongs (a signed integer parser would take it)
+		{ok[:5] + "+" + ok[6:], false}, {ok[:8] + "+" + ok[9:], false}, {"+" + ok[1:], false}, {"-" + ok[1:], false}, {ok[:5] + "-" + ok[6:], false},
 		{" " + ok, false},
 		{"", false},
 		{ok[:9], false},
@@ -232,6 +238,7 @@ func dateTimeSamples(t *rapid.T, label string) []fmtSample {
 		{date + "T23:59:60" + frac + off, true},
 		{date[:8] + rapid.SampledFrom([]string{"31", "30"}).Draw(t, label+"eom") + "T" + rapid.SampledFrom([]string{"23:59:60Z", "15:59:60-08:00", "23:59:61Z"}).Draw(t, label+"leap"), false},
 		{date + "T" + tm + "." + off, false},
+		{date[:5] + "+" + date[6:] + "T" + tm + off, false}, {"+" + date[1:] + "T" + tm + off, false}, {date + "T+" + tm[1:] + off, false}, {date + "T" + tm[:3] + "-" + tm[4:] + off, false},
 		{date + "T" + tm + "." + digits(t, 10, 14, false, label+"longfr") + off, true},
 	}
 }
@@ -515,10 +522,21 @@ func ScalarCase(t *rapid.T, label string) (*ref.SNode, []Probe) {
 				pat = "^" + pat
 			}
 			ex := re.sample(t, label+"ReEx")
+			slashed := anch >= 2 && rapid.IntRange(0, 5).Draw(t, label+"Slashed") == 0
+			if slashed {
+				// the text searched for begins and ends with a slash (a path): the slashes are part of
+				// the pattern, not delimiters
+				pat, ex = "/"+pat+"/", "/"+ex+"/"
+			}
 			n.Tok, n.Str = Quote(ex), ex
 			n.Rules = append(n.Rules, ref.SRule{Name: "regex", ValKind: ref.RVScalar, Tok: jsonEscape(pat)})
 			for i := 0; i < 3; i++ {
 				m := re.sample(t, fmt.Sprint(label, "ReM", i))
+				if slashed {
+					add(strVal(m), "regex:slashed-pattern:inner-match-only")
+					add(strVal("/"+m), "regex:slashed-pattern:inner-match-only")
+					m = "/" + m + "/"
+				}
 				add(strVal(m), "regex:match")
 				add(strVal("zz"+m), "regex:match-with-prefix")
 				// single edit
